@@ -13,6 +13,7 @@ import (
 	"runtime/debug"
 	"sort"
 	"strings"
+	"sync/atomic"
 )
 
 // Violation is one observed refutation of a property.
@@ -55,6 +56,7 @@ type Ctx struct {
 
 	curMon  string
 	curCase int64
+	caseSeq int64 // incremented on every case start (read by the worker watchdog)
 
 	res     Result
 	shapes  map[uint64]struct{}
@@ -110,6 +112,7 @@ func (c *Ctx) Mine(mon string, i int64) bool {
 		return false
 	}
 	c.curMon, c.curCase = mon, i
+	atomic.AddInt64(&c.caseSeq, 1)
 	if c.progress != nil && (c.stride == 1 || i%c.stride == 0) {
 		n := copy(c.pbuf[:], mon)
 		for n < 40 {
@@ -121,6 +124,18 @@ func (c *Ctx) Mine(mon string, i int64) bool {
 		c.progress.WriteAt(c.pbuf[:61], 0)
 	}
 	return true
+}
+
+// CaseSeq returns a counter that changes whenever a new case starts.
+func (c *Ctx) CaseSeq() int64 { return atomic.LoadInt64(&c.caseSeq) }
+
+// FlushProgress rewrites the progress marker for the current case regardless
+// of the stride (called by the watchdog before it kills the process).
+func (c *Ctx) FlushProgress() {
+	if c.progress != nil {
+		s := fmt.Sprintf("%-40s%-20d\n", c.curMon, c.curCase)
+		c.progress.WriteAt([]byte(s), 0)
+	}
 }
 
 // Whole is for sub-monitors that are not split into cases: it runs on batch 0
@@ -276,7 +291,7 @@ type Property struct {
 	Race        bool     // has sub-monitors that need the -race binary
 	Run         func(c *Ctx)
 	RunRace     func(c *Ctx) // executed only in the -race binary
-	MinEvals    int64    // fewer evaluations than this on a completed run => inconclusive
+	MinEvals    int64        // fewer evaluations than this on a completed run => inconclusive
 }
 
 var registry = map[string]*Property{}
